@@ -1,6 +1,6 @@
 SPECIFICATION Spec
 CONSTANTS
-  Workers = {w1}
+  Workers = {w1, w2}
   Producers = {p1, p2}
   ApiCallers = {a1}
   Groups = {g1, g2}
@@ -10,15 +10,15 @@ CONSTANTS
   p2 = p2
   g1 = g1
   g2 = g2
-  MaxCycles = 1
+  MaxCycles = 2
   RecheckUnderLock = TRUE
   GuardedConn = TRUE
   PerCycleWG = TRUE
-  SubscribeMayFail = FALSE
-  StartMayFail = FALSE
+  SubscribeMayFail = TRUE
+  StartMayFail = TRUE
   ResetOnFailedStart = TRUE
-  Script <- MCScriptB
+  Script <- MCScript
 VIEW view
-INVARIANTS MutualExclusion FifoPrefix AtMostOnce ExactlyOnce NoPanic AfterShutdown NoLateStart Accounted
+INVARIANTS NotStuckStarting MutualExclusion FifoPrefix AtMostOnce ExactlyOnce NoPanic AfterShutdown NoLateStart Accounted
 PROPERTY AppendOnly
 CHECK_DEADLOCK TRUE
